@@ -1,6 +1,6 @@
 """C33 -- verify() produces the same library behaviour as set_source().
 
-E1: a declaration alphabet restricted to what verify() supports (19 items);
+E1: a declaration alphabet restricted to what verify() supports (20 items);
 programs = every singleton, every unordered pair (thorough) and the universe
 of all items.  Every program is built three ways -- set_source()+compile(),
 verify() with the CPython engine, verify() with the generic engine -- and a
@@ -23,9 +23,9 @@ LEVEL = "exploration"
 META = dict(
     engine="E1-enum", level="exploration",
     technique="differential execution of three builders (set_source, verify/CPython engine, verify/generic engine) over "
-              "all singletons, all pairs and the union of a 19-item declaration alphabet, with boundary and wrong-type "
+              "all singletons, all pairs and the union of a 20-item declaration alphabet, with boundary and wrong-type "
               "argument alphabets",
-    text="Every program (singletons; thorough: all 171 pairs; the universe of all items) is compiled three ways and "
+    text="Every program (singletons; thorough: all 190 pairs; the universe of all items) is compiled three ways and "
          "every function is called over boundary-complete and wrong-type arguments, every global read/written, every "
          "constant and layout read; outcomes (value with its type, or exception type) must be identical across the "
          "three builds.",
